@@ -29,6 +29,11 @@ CONTEXTS: dict[str, Ctx] = {
         Ctx("nested", "- qyy\n", "  - ", "    ", 1, "  - ", "    "),
         Ctx("footnote", "", "[^n]: ", "    ", 0, "[^n]: ", "    "),
         Ctx("footnote-long", "", "[^qyy]: ", "    ", 0, "[^qyy]: ", "    "),
+        Ctx("bullet-quote", "", "- > ", "  > ", 0, "- > ", "  > "),
+        Ctx("ordered-bullet", "", "1. - ", "     ", 0, "1. - ", "     "),
+        Ctx("quote-quote", "", "> > ", "> > ", 0, "> > ", "> > "),
+        Ctx("footnote-bullet", "", "[^n]: - ", "      ", 0, "[^n]: - ", "      "),
+        Ctx("deep", "", "> - 1. ", ">      ", 0, "> - 1. ", ">      "),
         Ctx("alert", "> [!NOTE]\n", "> ", "> ", 1, "> ", "> "),
         Ctx("task", "", "- [ ] ", "  ", 0, "- [ ] ", "  "),
     ]
